@@ -37,6 +37,8 @@ def parse(t):
             return ("seq", parse(parts[0]), "tuple")
         if head == "Tuple":
             return ("tuple", [parse(p) for p in parts])
+        if head in ("Dict", "NewDict"):      # Dict[KeyClass,ValueType]; NewDict = a dictionary built by the code (iteration order not tracked)
+            return ("dict", parts[0].strip(), parse(parts[1]), head == "Dict")
         raise ValueError(t)
     if t.startswith("Obj:"):
         return ("obj", t[4:])
@@ -119,6 +121,9 @@ def mk(ty, name):
         return SSeq(("arr", SInt(n), a, ty[1]), ty[2])
     if k == "tuple":
         return tuple(mk(t, f"{name}.{i}") for i, t in enumerate(ty[1]))
+    if k == "dict":
+        from . import vrt
+        return vrt.mk_dict(ty[1], ty[2], name, with_keys=ty[3])
     raise sym.Unsupported(f"mk {ty}")
 
 
